@@ -39,12 +39,14 @@ fn source_of(from: &CoordinateOrderDescriptor, to: &CoordinateOrderDescriptor, i
     j
 }
 // what `new` stores
-fn store(give: &CoordinateOrderDescriptor) {
+fn store(give: &CoordinateOrderDescriptor) -> ParsedParameters {
+    let mut p = bare_params("adapt");
     if give.noop {
-        t_flag("noop");
+        t_flag(&mut p, "noop");
     }
-    t_series("post", &[give.post[0] as f64, give.post[1] as f64, give.post[2] as f64, give.post[3] as f64]);
-    t_series("mult", &give.mult);
+    t_series(&mut p, "post", &[give.post[0] as f64, give.post[1] as f64, give.post[2] as f64, give.post[3] as f64]);
+    t_series(&mut p, "mult", &give.mult);
+    p
 }
 const PROBE: [f64; 4] = [3.0, 5.0, 7.0, 11.0];
 
@@ -62,7 +64,7 @@ fn c11_adapt_combine() {
     assert!(!give.noop, "C11.K.adapt.combine.noop: a scaling pair is never a no-op");
 }
 
-//@h {"id":"C11.K.adapt.fwd","props":["C11","C10","C09"],"tier":"quick","kind":"complete","replay":"none","timeout":900,"text":"adapt fwd on the probe tuple for all axis orders x signs: out[i] = in[j] * from.mult[j] / to.mult[i] exactly; returns n; (parameter accessors replaced by their contract)"}
+//@h {"id":"C11.K.adapt.fwd","props":["C11","C10","C09"],"tier":"quick","kind":"complete","timeout":900,"text":"adapt fwd on the probe tuple for all axis orders x signs: out[i] = in[j] * from.mult[j] / to.mult[i] exactly; returns n; (parameter accessors replaced by their contract)"}
 #[kani::proof]
 #[kani::unwind(9)]
 #[kani::stub(crate::op::ParsedParameters::boolean, stub_boolean)]
@@ -70,8 +72,7 @@ fn c11_adapt_combine() {
 fn c11_adapt_fwd() {
     let (from, to) = any_descriptor_pair();
     let give = combine_descriptors(&from, &to);
-    store(&give);
-    let op = bare_op(bare_params("adapt"), InnerOp(fwd), Some(InnerOp(inv)), false);
+    let op = bare_op(store(&give), InnerOp(fwd), Some(InnerOp(inv)), false);
     let mut data = [Coor4D(PROBE)];
     let r = fwd(&op, &NoCtx, &mut data);
     let i: usize = kani::any();
@@ -81,7 +82,7 @@ fn c11_adapt_fwd() {
     assert!(data[0][i] == PROBE[j] * from.mult[j] / to.mult[i], "C11.K.adapt.fwd.map: re-ordered, sign-flipped and scaled as the two descriptors declare");
 }
 
-//@h {"id":"C11.K.adapt.inv","props":["C11","C01","C09"],"tier":"quick","kind":"complete","replay":"none","timeout":900,"text":"adapt inv is the exact reverse mapping: inv(fwd(x)) == x and fwd(inv(x)) == x bitwise on the probe tuple for all axis orders x signs (power-of-two factors); `adapt to=X` == `adapt inv from=X` by symmetry of the obligation"}
+//@h {"id":"C11.K.adapt.inv","props":["C11","C01","C09"],"tier":"quick","kind":"complete","timeout":900,"text":"adapt inv is the exact reverse mapping: inv(fwd(x)) == x and fwd(inv(x)) == x bitwise on the probe tuple for all axis orders x signs (power-of-two factors); `adapt to=X` == `adapt inv from=X` by symmetry of the obligation"}
 #[kani::proof]
 #[kani::unwind(9)]
 #[kani::stub(crate::op::ParsedParameters::boolean, stub_boolean)]
@@ -89,8 +90,7 @@ fn c11_adapt_fwd() {
 fn c11_adapt_inv() {
     let (from, to) = any_descriptor_pair();
     let give = combine_descriptors(&from, &to);
-    store(&give);
-    let op = bare_op(bare_params("adapt"), InnerOp(fwd), Some(InnerOp(inv)), false);
+    let op = bare_op(store(&give), InnerOp(fwd), Some(InnerOp(inv)), false);
     let mut data = [Coor4D(PROBE)];
     let r = fwd(&op, &NoCtx, &mut data);
     let r2 = inv(&op, &NoCtx, &mut data);
@@ -106,7 +106,7 @@ fn c11_adapt_inv() {
     assert!(r4 == 1 && same4(&data[0], &Coor4D(PROBE)), "C01.K.adapt.roundtrip: forward after inverse is the identity, bit for bit");
 }
 
-//@h {"id":"C11.K.adapt.noop","props":["C11","C13","C10"],"tier":"quick","kind":"complete","replay":"none","timeout":600,"text":"a descriptor pair that combines to the identity is flagged noop, and a noop adapt writes nothing in either direction (all f64 bits)"}
+//@h {"id":"C11.K.adapt.noop","props":["C11","C13","C10"],"tier":"quick","kind":"complete","timeout":600,"text":"a descriptor pair that combines to the identity is flagged noop, and a noop adapt writes nothing in either direction (all f64 bits)"}
 #[kani::proof]
 #[kani::unwind(34)]
 #[kani::stub(crate::op::ParsedParameters::boolean, stub_boolean)]
@@ -117,8 +117,7 @@ fn c11_adapt_noop() {
     let d = CoordinateOrderDescriptor { post: p, mult: [sgn(s[0]), sgn(s[1]), sgn(s[2]), sgn(s[3])], noop: false };
     let give = combine_descriptors(&d, &d);
     assert!(give.noop, "C11.K.adapt.noop.flag: from == to combines to a no-op");
-    store(&give);
-    let op = bare_op(bare_params("adapt"), InnerOp(fwd), Some(InnerOp(inv)), false);
+    let op = bare_op(store(&give), InnerOp(fwd), Some(InnerOp(inv)), false);
     let c = any4();
     let mut data = [c];
     let r = if kani::any() { fwd(&op, &NoCtx, &mut data) } else { inv(&op, &NoCtx, &mut data) };
